@@ -1,7 +1,7 @@
 CONSTANTS
   Codec = "lines"
   Alpha = {97, 13, 10, 255}
-  MaxLen = 6
+  MaxLen = 5
   LpBad = 9
   LpScale = 1
   EofDecodes = TRUE
